@@ -54,6 +54,45 @@ Definition rout_eqb (a b : rout) : bool :=
 Definition is_fail (o : rout) : bool :=
   match o with OErr _ | ONil => true | ORead _ _ (Some _) => true | _ => false end.
 
+(* model-side events of one step (which branches of the modelled code the case went through);
+   the tag of a case is the union over its history:
+     1 allocate   2 allocate more than bufsz   4 grow   8 caller's (read-only) buffer replaced
+     16 source error stored while the request was satisfied   32 request failed with the source error
+     64 no-progress   128 failure on an already stored error   256 Release frees the buffer
+     512 Release re-slices a read-only buffer   1024 Release compacts   2048 negative count
+     4096 ReadBinary short (0 < m < k)   8192 old buffer parked   16384 allocation sized by the statistics
+     32768 fast path (request served from the window) *)
+Definition ev_step (st : rstate) (o : rop) (st' : rstate) (out : rout) : N :=
+  let b (c : bool) (v : N) := if c then v else 0 in
+  b ((cap st =? 0) && negb (cap st' =? 0)) 1
+  + b ((cap st =? 0) && (bufsz <? cap st')) 2
+  + b (negb (cap st =? 0) && (cap st <? cap st')) 4
+  + b (ro st && negb (ro st') && negb (cap st' =? 0)) 8
+  + match rerr st, rerr st' with
+    | None, Some e => if (e =? e_noprogress)%Z then 64 else if is_fail out then 32 else 16
+    | Some _, _ => b (is_fail out) 128
+    | _, _ => 0
+    end
+  + match o with
+    | RRelease => match win st with [] => 256 | _ => if ro st then 512 else 1024 end
+    | RNext n | RPeek n | RSkip n => b (n <? 0)%Z 2048
+    | RReadBinary k => match out with ORead m _ (Some _) => b (0 <? m) 4096 | _ => 0 end
+    | _ => 0
+    end
+  + b (npend st <? npend st') 8192
+  + b ((cap st =? 0) && negb (cap st' =? 0) && (bufsz <? stats_max (stats st))) 16384
+  + match o with
+    | RNext n | RPeek n | RSkip n => b ((0 <=? n)%Z && (Z.to_N n <=? len (win st)) && negb (is_fail out)) 32768
+    | RReadBinary k => b (k <=? len (win st)) 32768
+    | _ => 0
+    end.
+
+Fixpoint ev_run (st : rstate) (ops : list rop) (acc : N) : N :=
+  match ops with
+  | [] => acc
+  | o :: r => let '(st', out) := r_step st o in ev_run st' r (N.lor acc (ev_step st o st' out))
+  end.
+
 (* input (kind data final with chunks ops extra_cap)
      kind 0: io.Reader backed   kind 1: bytes backed (cap = len data + extra_cap) *)
 Definition check (c : cval) : verdict :=
@@ -72,8 +111,7 @@ Definition check (c : cval) : verdict :=
       let fin' := if (kind =? 0)%Z then fin else e_eof in
       let chs' := if (kind =? 0)%Z then chs else [] in
       let s := cursor_run data fin' chs' {| cpos := 0; crl := 0 |} ops' outs' in
-      mk a s (1 + kind + (if existsb is_fail mouts then 2 else 0) + (if bufsz <? len data then 4 else 0)
-              + (if existsb (N.eqb 0) chs then 8 else 0))
+      mk a s (Z.of_N (ev_run st0 ops' 0) * 2 + 1 + kind)
     | _, _ => bad_case
     end
   | _ => bad_case
